@@ -16,17 +16,17 @@ CLAIMED = {
    note="Assumes the regex text in the specification tables is the published one; '.' is judged only where XSD / no-newline / any-byte readings agree; complete only up to the stated length and extra-state bounds.",
    ref="DESIGN.md section 3 C19"),
  'C01': dict(
-   technique="proptest-generated specification-derived documents x rendering styles; constructed-truth oracle (extract(load(render(d))) == d) and round-trip oracle (load-serialize-load identity, byte-identical re-serialization), strict and lenient, all 21 versions",
+   technique="proptest-generated specification-derived documents x rendering styles; constructed-truth oracle (extract(load(render(d))) == d) and round-trip oracle (load-serialize-load identity, byte-identical re-serialization), strict and lenient, all 21 versions; the round-trip oracle also on every accepted mutated document (proptest) and inside a coverage-guided libFuzzer target (thorough tier)",
    text="Documents are generated from the specification tables (every element type reachable in every version in the thorough sweep; every character-data kind, mixed content, attributes, comments), rendered in thousands of textual forms (quote styles, entity / decimal / hex references, padding, CRLF, BOM, PIs), and the loaded model is compared with the abstract document the text was rendered from, then serialized and re-loaded.",
    note="Domain restrictions (documented in DESIGN.md section 7): values contain no \\r and are not whitespace-only, '>' is escaped inside tags, no whitespace before '>' of an end tag, pattern values use only mandatory escapes. A strict rejection of a generated document is reported as 'generator-rejected' (harness bug or disagreement), never silently dropped.",
    ref="DESIGN.md section 3 C01"),
  'C02': dict(
-   technique="bounded-exhaustive token strings in nine syntactic contexts + proptest structure-aware mutation / truncation of rendered documents + random bytes; oracle: no panic (catch_unwind) / no abort (child process), error line range, check_buffer superset of load",
+   technique="bounded-exhaustive token strings in nine syntactic contexts + proptest structure-aware mutation / truncation of rendered documents + random bytes + coverage-guided libFuzzer target with the same oracle (thorough tier); oracle: no panic (catch_unwind) / no abort (child process), error line range, check_buffer superset of load",
    text="Totality is attacked where the lexer and parser index into the buffer: every string up to length 4 (quick) / 6 (thorough) over a 16-symbol XML token alphabet in nine contexts, truncation of small documents at every byte offset, XML-header attribute shapes, mutated documents of all versions, random bytes / UTF-8, and nesting-depth probes run in a child process.",
    note="A hang would show as the check not terminating (no separate watchdog); stack overflow at extreme nesting depth is a recorded open finding (KF-C02-4), a crash at <= 1000 levels would be a new violation.",
    ref="DESIGN.md section 3 C02"),
  'C08': dict(
-   technique="differential testing strict vs lenient load (R1-R3) over C02's generated inputs, plus proptest-generated valid documents with one injected defect from a 22-class catalogue that strict loading must reject (R4)",
+   technique="differential testing strict vs lenient load (R1-R3) over C02's generated inputs, plus proptest-generated valid documents with one injected defect from a 22-class catalogue that strict loading must reject (R4); R1-R3 also inside a coverage-guided libFuzzer target (thorough tier)",
    text="Strict Ok <=> lenient Ok without warnings (same model); lenient warnings => strict error equal to the first warning (Display and Debug); lenient error => strict error; each injected documented defect (claimed only when the specification tables decide it) must be rejected by strict loading.",
    note="Injection claims rely on SpecIndex (public listing) and my own grammar matcher; sibling order is not claimed as a defect (the validator documents that it ignores order).",
    ref="DESIGN.md section 3 C08"),
